@@ -401,10 +401,137 @@ fn isolation_sub(tier: Tier) -> Sub {
   sub
 }
 
+
+// ------------------------------------------------------------------------------------------------
+// (c) a slow subscriber with a topic filter: order and filtering while its queue is full
+// ------------------------------------------------------------------------------------------------
+
+#[derive(Clone, Copy, Debug)]
+struct Slow {
+  inproc: bool,
+  rcvhwm: i32,
+  n: usize,
+  /// which publications carry the subscribed topic "A": index % period < matching
+  period: usize,
+  matching: usize,
+  /// the subscriber drains `burst` messages after every `every` publications (0 = only at the end)
+  every: usize,
+  multipart: bool,
+}
+
+fn slow_world(c: Slow) -> world::WorldResult<(Vec<u32>, bool, usize)> {
+  world::run(1, move || async move {
+    let ctx = Context::new().expect("context");
+    let p = stack::mk(&ctx, SocketType::Pub, &[(o::LINGER, 0), (o::SNDHWM, 1000)]).await;
+    let s = stack::mk(&ctx, SocketType::Sub, &[(o::LINGER, 0), (o::RCVTIMEO, 20), (o::RCVHWM, c.rcvhwm)]).await;
+    s.set_option(o::SUBSCRIBE, &b"A"[..]).await.expect("subscribe");
+    let link = if c.inproc {
+      p.bind("inproc://c12-slow").await.expect("bind");
+      s.connect("inproc://c12-slow").await.expect("connect");
+      None
+    } else {
+      Some(stack::link_pair(&s, &p, 1 << 16).await)
+    };
+    settle_n(8).await;
+    let mut got: Vec<u32> = vec![];
+    let mut foreign = false;
+    let mut published_a = 0usize;
+    let mut take = |fr: Vec<rzmq::Msg>, got: &mut Vec<u32>, foreign: &mut bool| {
+      let first = fr.first().map(|m| m.data().unwrap_or(&[]).to_vec()).unwrap_or_default();
+      if first.len() >= 5 && first[0] == b'A' {
+        got.push(u32::from_be_bytes(first[1..5].try_into().unwrap()));
+      } else {
+        *foreign = true;
+      }
+    };
+    for i in 0..c.n {
+      let is_a = i % c.period < c.matching;
+      let mut first = vec![if is_a { b'A' } else { b'B' }];
+      first.extend_from_slice(&(i as u32).to_be_bytes());
+      if is_a {
+        published_a += 1;
+      }
+      let _ = if c.multipart { p.send_multipart(vec![msg(&first, true), msg(b"Abody", false)]).await } else { p.send(msg(&first, false)).await };
+      if c.every > 0 && (i + 1) % c.every == 0 {
+        settle_n(2).await;
+        for _ in 0..2 {
+          if let Ok(fr) = s.recv_multipart().await {
+            take(fr, &mut got, &mut foreign);
+          }
+        }
+      }
+    }
+    settle_n(6).await;
+    while let Ok(fr) = s.recv_multipart().await {
+      take(fr, &mut got, &mut foreign);
+    }
+    if let Some(l) = &link {
+      l.destroy();
+    }
+    let _ = tokio::time::timeout(Duration::from_secs(30), ctx.term()).await;
+    (got, foreign, published_a)
+  })
+}
+
+fn slow_cells(tier: Tier) -> Vec<Slow> {
+  let mut v = vec![];
+  for inproc in [false, true] {
+    for rcvhwm in [1, 4, 16] {
+      for n in tier.pick(vec![40usize, 300], vec![40, 300, 2000]) {
+        for (period, matching) in [(2usize, 1usize), (3, 2), (3, 1), (1, 1), (8, 7)] {
+          for every in [0usize, 5, 50] {
+            for multipart in [false, true] {
+              if tier == Tier::Quick && multipart && (period != 2 || every == 50) {
+                continue;
+              }
+              v.push(Slow { inproc, rcvhwm, n, period, matching, every, multipart });
+            }
+          }
+        }
+      }
+    }
+  }
+  v
+}
+
+fn slow_sub(tier: Tier) -> Sub {
+  let mut sub = Sub::new("slow-subscriber-order", "E3");
+  sub.rule = "case = one world per (transport x RCVHWM x publications x topic interleaving x drain pattern x single/multipart) cell: a PUB publishes n messages whose first frame is 'A'+seq or 'B'+seq back-to-back to a SUB subscribed to 'A' whose queue (RCVHWM 1..16) overflows; the SUB drains a little now and then and completely at the end; non-trivial = more matching publications than the queue holds; oracle: the application sees only topic A, with strictly increasing sequence numbers (gaps allowed: a PUB may drop for a full subscriber)".into();
+  let list = slow_cells(tier);
+  sub.bounds = json!({"cells": list.len()});
+  par::enumerate(&mut sub, list.len(), |i| {
+    let c = list[i];
+    let r = slow_world(c);
+    let wit = json!({"explorer": "e3", "sub": "slow-subscriber-order", "cell": format!("{:?}", c)});
+    let class = format!("{}:hwm{}", if c.inproc { "inproc" } else { "zmtp" }, c.rcvhwm);
+    let mut case = Case { steps: c.n as u64, ..Default::default() };
+    for p in &r.panics {
+      case.violations.push(("panic".into(), p.rsplit(" @ ").next().map(mc_core::short_loc).unwrap_or_default(), p.clone(), wit.clone()));
+    }
+    if let Some((got, foreign, published_a)) = r.result {
+      case.nontrivial = published_a > c.rcvhwm as usize;
+      case.outcome = mc_core::digest(&(got.len() == published_a, foreign));
+      case.state = mc_core::digest(&(i, got.len()));
+      if foreign {
+        case.violations.push(("non-matching-message-delivered".into(), class.clone(), "a message of topic B (or a malformed one) reached the application".into(), wit.clone()));
+      }
+      if let Some(w) = got.windows(2).find(|w| w[1] <= w[0]) {
+        case.violations.push(("out-of-order-or-duplicate".into(), class.clone(), format!("sequence {} delivered after {} ({} of {} matching publications delivered: {:?}...)", w[1], w[0], got.len(), published_a, got.iter().take(24).collect::<Vec<_>>()), wit.clone()));
+      }
+      if i % 41 == 0 {
+        case.sample = Some(json!({"cell": format!("{:?}", c), "matching_published": published_a, "delivered": got.len()}));
+      }
+    }
+    case
+  });
+  sub
+}
+
 pub fn add_world_subs(rep: &mut Report, tier: Tier) {
   rep.assume("E3: events of a pub/sub history are separated by quiescence, so 'when the message reaches the subscriber' is the subscription set at publication time; healthy subscribers have a large RCVHWM and read after every publication");
   rep.add(histories_sub(tier));
   rep.add(isolation_sub(tier));
+  rep.add(slow_sub(tier));
 }
 
 pub fn replay(w: &Value) -> Result<String, String> {
